@@ -486,6 +486,29 @@ static string op_reply(const vector<string> &a) {
   return r + ";feq=" + eq;
 }
 
+// replyeq <rq|-> <t1,t2,t3,t4> <hex> <t1,t2,t3,t4> <hex>: RDMReply::operator== / RDMFrame::operator== on two
+// replies decoded by FromFrame
+static RDMFrame timed_frame(const string &tm, const string &hexs) {
+  vector<string> t = vh::split(tm, ',');
+  vector<uint8_t> bytes = vh::unhex(hexs);
+  vh::Exact e(bytes);
+  RDMFrame frame(e.p, e.n);
+  frame.timing.response_time = vh::num(t[0]); frame.timing.break_time = vh::num(t[1]);
+  frame.timing.mark_time = vh::num(t[2]); frame.timing.data_time = vh::num(t[3]);
+  return frame;
+}
+static string op_replyeq(const vector<string> &a) {
+  std::auto_ptr<RDMRequest> rq;
+  if (a[1] != "-") rq.reset(make_request(parse_fields(a[1]), 'g', RDMRequest::OverrideOptions()));
+  RDMFrame f1 = timed_frame(a[2], a[3]), f2 = timed_frame(a[4], a[5]);
+  std::auto_ptr<RDMReply> r1(RDMReply::FromFrame(f1, rq.get())), r2(RDMReply::FromFrame(f2, rq.get()));
+  std::auto_ptr<RDMReply> r1b(RDMReply::FromFrame(f1, rq.get()));
+  string r = string("feq=") + ((f1 == f2) ? "1" : "0") + ((f2 == f1) ? "1" : "0");
+  r += string(";req=") + ((*r1 == *r2) ? "1" : "0") + ((*r2 == *r1) ? "1" : "0");
+  r += string(";rself=") + ((*r1 == *r1b) ? "1" : "0");
+  return r;
+}
+
 // keys of the builder ops are reported under a "b_" prefix: what a builder puts into a command is not
 // fixed by the property (those keys are outside prop.SPEC_KEYS)
 static string prefix_keys(const string &r, const string &pre) {
@@ -505,6 +528,7 @@ static string handle(const string &p) {
   if (op == "eq") return op_eq(a);
   if (op == "disc") return prefix_keys(op_disc(a), "b_");
   if (op == "null") return op_null(a);
+  if (op == "replyeq") return prefix_keys(op_replyeq(a), "b_");
   if (op == "nullctor") return op_nullctor(a);
   if (op == "combine") return prefix_keys(op_combine(a), "b_");
   if (op == "reply") return prefix_keys(op_reply(a), "b_");
